@@ -37,7 +37,13 @@ type Layer struct {
 }
 
 // Case is a stack (upper first) plus the queries to run (empty = default set).
+// With Nest > 0 the overlay is not built flat: the first Nest layers form a shared base overlay
+// mid = NewOverlayFS(NewOverlayFS(l0, l1), l2, ...), from which TWO overlays are derived,
+// x = NewOverlayFS(mid, rest...) and y = NewOverlayFS(mid, Alt...); mid, x and y must each
+// behave like the flat stack of their layers (an overlay is itself an fs.FS layer).
 type Case struct {
+	Nest     int      `json:"nest,omitempty"`
+	Alt      []Layer  `json:"alt,omitempty"`
 	Stack    []Layer  `json:"stack"`
 	Paths    []string `json:"paths,omitempty"`
 	Patterns []string `json:"patterns,omitempty"`
@@ -125,6 +131,56 @@ func children(m map[string]Entry, dir string) map[string]Entry {
 }
 
 func check(c Case) error {
+	if c.Nest > 0 {
+		return checkNested(c)
+	}
+	return checkStack(c, nil)
+}
+
+// checkNested builds mid / x / y by nesting and checks each against the flat model.
+func checkNested(c Case) error {
+	n := c.Nest
+	if n > len(c.Stack) {
+		n = len(c.Stack)
+	}
+	if n < 1 || c.Stack[0].Nil {
+		// an inner overlay made only of nil layers answers ReadDir with ([], nil) for every
+		// name (pinned by the repository's own suite), which then reads as an existing empty
+		// directory one level up: not asserted
+		return nil
+	}
+	fss := make([]fs.FS, len(c.Stack))
+	for i, l := range c.Stack {
+		fss[i] = build(l, i)
+	}
+	alt := make([]fs.FS, len(c.Alt))
+	for i, l := range c.Alt {
+		alt[i] = build(l, n+i)
+	}
+	// left-nested base: ((l0 over l1) over l2) ...
+	var mid fs.FS = vuego.NewOverlayFS(fss[0])
+	for i := 1; i < n; i++ {
+		mid = vuego.NewOverlayFS(mid, fss[i])
+	}
+	x := vuego.NewOverlayFS(mid, fss[n:]...)
+	y := vuego.NewOverlayFS(mid, alt...)
+	if err := checkStack(Case{Stack: c.Stack, Paths: c.Paths, Patterns: c.Patterns}, x); err != nil {
+		return fmt.Errorf("overlay x = NewOverlayFS(mid, rest...) (after y was derived from the same mid): %w", err)
+	}
+	yl := append(append([]Layer(nil), c.Stack[:n]...), c.Alt...)
+	if err := checkStack(Case{Stack: yl, Paths: c.Paths, Patterns: c.Patterns}, y); err != nil {
+		return fmt.Errorf("overlay y = NewOverlayFS(mid, alt...): %w", err)
+	}
+	if m, ok := mid.(*vuego.OverlayFS); ok {
+		if err := checkStack(Case{Stack: c.Stack[:n], Paths: c.Paths, Patterns: c.Patterns}, m); err != nil {
+			return fmt.Errorf("shared base overlay mid after deriving x and y: %w", err)
+		}
+	}
+	return nil
+}
+
+// checkStack compares overlay o (built flat from c.Stack when nil) with the union model.
+func checkStack(c Case, o *vuego.OverlayFS) error {
 	if len(c.Stack) == 0 {
 		return nil
 	}
@@ -140,11 +196,12 @@ func check(c Case) error {
 			allNil = false
 		}
 	}
-	var o *vuego.OverlayFS
-	if len(fss) == 1 {
-		o = vuego.NewOverlayFS(fss[0])
-	} else {
-		o = vuego.NewOverlayFS(fss[0], fss[1:]...)
+	if o == nil {
+		if len(fss) == 1 {
+			o = vuego.NewOverlayFS(fss[0])
+		} else {
+			o = vuego.NewOverlayFS(fss[0], fss[1:]...)
+		}
 	}
 	paths := c.Paths
 	if len(paths) == 0 {
@@ -355,6 +412,9 @@ func classify(c Case) (bool, []string) {
 		cls = append(cls, "file-vs-dir-shadowing")
 	}
 	cls = append(cls, fmt.Sprintf("layers=%d", len(c.Stack)))
+	if c.Nest > 0 {
+		cls = append(cls, fmt.Sprintf("nested-base=%d", c.Nest), "two-overlays-derived-from-one-base")
+	}
 	return nt, cls
 }
 
@@ -473,6 +533,29 @@ func TestProp(t *testing.T) {
 		rec.Exhaustive(fmt.Sprintf("all stacks of 1..%d layers over the 5-path universe (%d stacks) x all queries", depth, n))
 	}
 
+	// nested construction: deterministic small cases + random
+	if run.First() {
+		ch := layerChoices(0)
+		pick := func(i int) Layer { return ch[(i*37+11)%len(ch)] }
+		k := 0
+		for nest := 1; nest <= 3; nest++ {
+			for rest := 0; rest <= 2; rest++ {
+				for v := 0; v < 12; v++ {
+					c := Case{Nest: nest}
+					for i := 0; i < nest+rest; i++ {
+						k++
+						c.Stack = append(c.Stack, pick(k+v*5))
+					}
+					k++
+					c.Alt = []Layer{pick(k + v*7)}
+					nt, cls := classify(c)
+					run.Each(rec, "nested-enum", c, nt || true, cls, check)
+				}
+			}
+		}
+	}
+	run.Rapid(t, rec, "nested", genNested, func(c Case) (bool, []string) { _, cls := classify(c); return true, cls }, check)
+
 	run.Rapid(t, rec, "random", func(t *rapid.T) Case {
 		n := rapid.IntRange(1, 4).Draw(t, "layers")
 		c := Case{}
@@ -483,6 +566,22 @@ func TestProp(t *testing.T) {
 		c.Patterns = []string{"*", "*/*", "*/*/*", "d/*", "d/s/?", "[a-d]", "e*", "*/[xz]"}
 		return c
 	}, classify, check)
+}
+
+func genNested(t *rapid.T) Case {
+	n := rapid.IntRange(2, 5).Draw(t, "layers")
+	c := Case{}
+	for i := 0; i < n; i++ {
+		c.Stack = append(c.Stack, genLayer(t, i))
+	}
+	c.Nest = rapid.IntRange(1, n).Draw(t, "nest")
+	k := rapid.IntRange(1, 2).Draw(t, "alt")
+	for i := 0; i < k; i++ {
+		c.Alt = append(c.Alt, genLayer(t, c.Nest+i))
+	}
+	c.Paths = []string{".", "a", "b", "d", "d/x", "d/y", "d/s", "d/s/t", "e", "e/z", "zz", "d/zz"}
+	c.Patterns = []string{"*", "*/*", "*/*/*", "d/*", "[a-d]", "e*"}
+	return c
 }
 
 func TestReplay(t *testing.T) { run.ReplayMain(t, prop, replay) }
